@@ -272,6 +272,18 @@ static Case draw() {
         }
         default: {
             c.g = pq::drawPoly(c.res, 60, true, rpick({3, 2, 1, 1, 0, 1}), rpick({2, 5, 1, 1, 1, 1}));
+            if (rpick({11, 1}) == 1) {  // a polygon that covers (nearly) the whole grid at a coarse resolution: estimates reach the total number of cells
+                c.res = ri(0, 2);
+                if (rbool()) c.g = pq::drawPoly(c.res, 60, false, 6);
+                else {
+                    c.g = pq::GPoly();
+                    double la = 1.3 + 0.18 * runit(), lo = 3.0 + 0.12 * runit();
+                    // every edge shorter than 180 degrees of longitude (a 4-vertex rectangle would be read as crossing the antimeridian)
+                    c.g.outer = {{-la, -lo}, {-la, -lo / 3}, {-la, lo / 3}, {-la, lo}, {la, lo}, {la, lo / 3}, {la, -lo / 3}, {la, -lo}};
+                    c.g.shape = 4; c.g.loc = 0;
+                    if (rbool()) c.g.holes.push_back({{-0.1, -0.1}, {-0.1, 0.1}, {0.1, 0.1}, {0.1, -0.1}});
+                }
+            }
             c.flags = c.fn == POLYFILL ? 0u : (uint32_t)ri(0, 3);
             if (rpick({8, 1}) == 1) c.flags = (uint32_t)ri(4, 40);  // bad flags: error path
             if (rpick({12, 1}) == 1) c.g.outer.clear();              // empty outer loop
